@@ -532,6 +532,8 @@ def cases(tier, seed):
                     out.append(dict(id='agent-asym-%d-%s-%d-%s' % (contacts, who, asym, policy), kind='agent', contacts=contacts, who=who, pre_steps=60,
                                     mid_steps=25, bundles=1, asym=asym, seed=seed + contacts, policy=policy, stagger=0,
                                     stop_on_close=(policy == 'rr')))
+    # secured sessions: the parameters reported about them carry the identifiers taken from the peer certificate
+    out.append(dict(id='tls-params', kind='tls-params'))
     out.append(dict(id='udp-benign', kind='udp', which='benign', seed=seed, mtu=None, sends=[10, 500]))
     out.append(dict(id='udp-benign-mtu', kind='udp', which='benign', seed=seed + 1, mtu=100, sends=[10, 99, 100, 400]))
     out.append(dict(id='udp-hostile', kind='udp', which='hostile', seed=seed + 2, mtu=None, sends=[]))
@@ -608,8 +610,22 @@ def run_case(case):
         note(peer_lengths_run(case['role'], case['total'], obs), 'peerlen', dict(role=case['role'], total=case['total']),
              'peerlen|%s|%s' % (case['role'], case['total']))
     elif case['kind'] == 'agent':
-        params = {k: case[k] for k in ('contacts', 'who', 'pre_steps', 'mid_steps', 'bundles', 'seed', 'policy', 'stagger')}
+        params = {k: case[k] for k in ('contacts', 'who', 'pre_steps', 'mid_steps', 'bundles', 'seed', 'policy', 'stagger', 'asym', 'stop_on_close') if k in case}
         note(agent_run(params, obs), 'agent', params, 'agent|%s' % sorted(params.items()))
+    elif case['kind'] == 'tls-params':
+        # the C15 harness (fake TLS layer, real certificates) drives sessions to 'established'; here only the types of what the
+        # endpoint then reports over the bus are judged
+        from vf.props import c15
+        obs15 = dict(rows=0, tls_attempted=0, established_secure=0, contact_failures=0, policy_closures=0)
+        for naming in ('passive', 'active-addr', 'active-dns'):
+            for (ip, dns, uri) in (('match', 'absent', 'match'), ('match', 'match', 'match'), ('absent', 'match', 'absent'), ('both', 'both', 'both'),
+                                   ('absent', 'absent', 'match'), ('match', 'absent', 'absent')):
+                row = dict(local_can=True, peer_can=True, require=None, hs_ok=True, naming=naming, ip=ip, dns=dns, uri=uri, req_host=False, req_node=False)
+                problems15, _want = c15.run_row(row, obs15)
+                obs['runs'] += 1
+                obs['tls_param_reports'] = obs.get('tls_param_reports', 0) + 1
+                note([(kind, text) for (kind, text, _d) in problems15 if kind in ('type', 'raised')], 'tls-params', dict(row=c15._short(row)),
+                     'tls|%s|%s|%s|%s' % (naming, ip, dns, uri))
     else:
         params = dict(seed=case['seed'], mtu=case['mtu'], sends=case['sends'],
                       datagrams=_udp_benign if case['which'] == 'benign' else _udp_hostile)
